@@ -59,6 +59,8 @@ fn raw_body(te: &Option<String>) -> (Vec<u8>, Vec<u8>) {
 }
 
 fn cl_valid(v: &str) -> Option<u64> {
+    // blanks around a field value are not part of it (HTAB is left out: observation O15)
+    let v = v.trim_matches(' ');
     if v.is_empty() || !v.bytes().all(|b| b.is_ascii_digit()) {
         return None;
     }
@@ -71,7 +73,8 @@ fn reference(c: &Case) -> Expect {
     let cl_bad = vals.iter().any(|v| v.is_none()) || vals.windows(2).any(|w| w[0] != w[1]);
     let no_body = c.method == "HEAD" || (100..200).contains(&c.status) || c.status == 204 || c.status == 304;
     let chunked = c.te.as_deref().filter(|t| !t.starts_with("CE=")).map_or(false, |t| {
-        t.split(|c| c == ',' || c == '|').last().map_or(false, |l| l.trim().eq_ignore_ascii_case("chunked"))
+        // empty list elements are ignored (RFC 9110 5.6.1.2): the last coding is the last non-empty element
+        t.split(|c| c == ',' || c == '|').map(|l| l.trim()).filter(|l| !l.is_empty()).last().map_or(false, |l| l.eq_ignore_ascii_case("chunked"))
     });
     if no_body {
         return if cl_bad {
@@ -284,6 +287,8 @@ pub fn c03(ctx: &Ctx) -> Report {
         vec!["5", "10\u{1}"],
         vec!["10\u{1}", "5"],
         vec!["5", "+5"],
+        vec!["5 "],
+        vec!["5  ", "5"],
         vec!["05"],
         vec!["00"],
         vec!["0005", "0005"],
@@ -308,6 +313,12 @@ pub fn c03(ctx: &Ctx) -> Report {
         Some("unchunked"),
         Some("identity, X-Chunked"),
         Some("chunked-v2"),
+        // empty list elements behind (and in front of) the coding
+        Some("chunked,"),
+        Some("chunked , ,"),
+        Some("gzip, chunked,"),
+        Some(",chunked"),
+        Some("chunked|"),
         // obs-text inside a quoted parameter of an earlier coding, on the same line and on a line of its own
         Some("x-foo;note=\"caf\u{e9}\", chunked"),
         Some("x-foo;note=\"caf\u{e9}\"|chunked"),
